@@ -10,17 +10,18 @@ _META = core.VERIF / 'harness' / 'props' / 'meta' / 'C16.json'
 LEVEL = json.loads(_META.read_text())['category'] if _META.exists() else 'other'
 RULE = ('corpus; unsigned images (uint8/16/32/64, 1-3 D, 1..4096 pixels) with 1..65536 grey levels: constant, two-level, '
         'sparse histograms with gaps, symmetric histograms with exact ties for the optimum, zero-dominated, full 16-bit '
-        'range, each with ignore_zeros off and on, each also permuted and reshaped; gbernsen/bernsen on uint8/uint16 '
+        'range, zeros plus one level, nearly symmetric histograms at high levels, each with ignore_zeros off and on, each also permuted and reshaped; gbernsen/bernsen (radius 1..4, images smaller than the window) on uint8/uint16 '
         'images with random/regular/even-sized structuring elements, contrast thresholds around the occurring contrasts, '
-        'integer and half-integer global thresholds; soft_threshold on float64 (dyadic and arbitrary) and int64 data, '
+        'integer and half-integer global thresholds; soft_threshold on float64 (dyadic and arbitrary), float32/float16 (dyadic) and every integer dtype (unsigned, narrow, dtype minimum and maximum included), '
         'tval >= 0 incl. 0 and values equal to |f|. Non-trivial = more than one occurring level (thresholds), both '
         'branches of the rule taken (bernsen), some element shrunk and some zeroed (soft); distinct = distinct input.')
 ASSUMPTIONS = ['otsu/rc/fullhistogram are given C-contiguous writable unsigned-integer arrays (other layouts are rejected by '
                'histogram.py: a C08 matter), with at least one pixel and levels <= 65535',
                'pixel count and sum of grey levels < 2^53 (the double accumulators of the C code are then exact)',
                'otsu: any maximiser of the exact (rational) between-class variance is accepted; when the returned threshold '
-               'is not an exact maximiser but within 1e-9 relative of the maximum the case is counted as a near-tie and '
-               'not judged',
+               'is not an exact maximiser but its exact sigma is within otsuMargin(hist) of the maximum (the rounding-error '
+               'bound proved for the binary64 model, C16_otsu_binary64_margin; N^2 <= 2^53 and first moment <= 2^53 hold '
+               'for every generated image) the case is counted as a near-tie and not judged',
                'rc: the returned double is compared with the exact rational value within 1e-12 relative; cases whose '
                'stopping comparison m(t) <= t+1 has an exact margin below 1e-9 are counted as near-ties and not judged',
                'bernsen/gbernsen: the statement fixes which comparison is made where, not its orientation: the code\'s '
@@ -115,7 +116,10 @@ def _eval_global(case):
         else:
             smax, sgot = _frac(do['smax']), _frac(do['sgot'])
             if sgot != smax:
-                if smax - sgot <= Fraction(1, 10**9) * smax:
+                # C16_otsu_binary64_margin: a threshold computed in binary64 has 0 <= smax - sgot <= otsuMargin(hist)
+                # (explicit bound, leading term 16*2^-53*(hi-lo)^2*Fn*N, evaluated exactly by the driver); within the
+                # margin the deficit is explained by rounding (counted, not judged), outside it cannot be
+                if smax - sgot <= _frac(do['margin']):
                     near['otsu'] = near.get('otsu', 0) + 1
                 else:
                     f.append(dict(kind='property', key='otsu:not-argmax',
@@ -173,6 +177,16 @@ def _eval_global(case):
         if len(lv) == 2 and not (lv[0] <= int(real[iz][0]) < lv[1]):
             f.append(dict(kind='property', key='otsu:two-level-separates',
                           detail=dict(levels=lv, got=int(real[iz][0]), iz=iz)))
+    # degenerate inputs (C16_otsu_single_level, C16_rc_single_level, C16_rc_ignore_zeros): one counted level -> otsu 0,
+    # rc = that level (0 when nothing is counted); the statement only fixes lo <= rc <= hi, so these are model findings
+    for iz in (0, 1):
+        lv = sorted(set(v for v in data if v or not iz))
+        if len(lv) <= 1 and iz in real:
+            want_rc = float(lv[0]) if lv else 0.0
+            if int(real[iz][0]) != 0:
+                f.append(dict(kind='model', key='otsu:single-level', detail=dict(levels=lv, got=int(real[iz][0]), iz=iz)))
+            if float(real[iz][1]) != want_rc:
+                f.append(dict(kind='model', key='rc:single-level', detail=dict(levels=lv, got=float(real[iz][1]), iz=iz)))
     nlevels = len(set(data))
     return dict(findings=f, nontrivial=nlevels > 1, sig='g' + str(hash((tuple(case['shape']), case['dtype'], tuple(data)))),
                 tags=dict(kind='otsu+rc', near_tie=('+'.join(sorted(near)) or 'none'), dtype=case['dtype'], gen=case.get('gen', 'corpus'),
@@ -207,9 +221,19 @@ def _eval_bernsen(case):
         return dict(findings=[dict(kind='property', key=f'{name}:raised:{type(e).__name__}', detail=dict(error=str(e)[:200]))],
                     nontrivial=False, sig='b-raised' + json.dumps(case)[:200],
                     tags=dict(kind=name, dtype=case['dtype'], gen=case.get('gen', 'corpus')))
-    line = (f"c16 kind=gbernsen shape={gen.enc_shape(img.shape)} data={gen.enc_arr(img)} "
-            f"bshape={gen.enc_shape(se.shape)} bc={gen.enc_arr(se.astype(int))} ct={ct} g2={g2}")
+    if case['kind'] == 'bernsen':
+        # the structuring element is built by the model (circleSe, C16_circle_se_spec), not taken from the implementation
+        line = (f"c16 kind=bernsen shape={gen.enc_shape(img.shape)} data={gen.enc_arr(img)} "
+                f"radius={case['radius']} ct={ct} g2={g2}")
+    else:
+        line = (f"c16 kind=gbernsen shape={gen.enc_shape(img.shape)} data={gen.enc_arr(img)} "
+                f"bshape={gen.enc_shape(se.shape)} bc={gen.enc_arr(se.astype(int))} ct={ct} g2={g2}")
     drv = core.drive([line])[0]
+    if case['kind'] == 'bernsen':
+        r = case['radius']
+        if list(se.shape) != [2 * r + 1, 2 * r + 1] or [int(v) for v in se.ravel().tolist()] != core.ints(drv['se']):
+            f.append(dict(kind='model', key='circle_se-model',
+                          detail=dict(radius=r, got=se.astype(int).tolist(), model=drv['se'])))
     model = core.ints(drv['model'])
     pinned = core.ints(drv['pinned'])
     interior = core.ints(drv['interior'])
@@ -238,6 +262,10 @@ def _eval_soft(case):
     f = []
     if case['dt'] == 'f64':
         x = core.floats(','.join(map(str, case['bits']))).reshape(case['shape'])
+        if case.get('fdt'):
+            # float32 / float16 input: values and threshold are dyadic and exactly representable in the dtype, so the cast is
+            # exact, f - t is exact in the dtype and the f64 model/spec of the driver applies to the result converted back
+            x = x.astype(case['fdt'])
         t = core.bits2f(case['tbits'])
         line = f"c16 kind=soft dt=f64 data={','.join(map(str, case['bits']))} t={case['tbits']}"
     else:
@@ -258,6 +286,10 @@ def _eval_soft(case):
     g = np.asarray(got).ravel()
     if case.get('idt') and np.asarray(got).dtype != np.dtype(case['idt']):
         f.append(dict(kind='property', key='soft_threshold:dtype', detail=dict(got=str(np.asarray(got).dtype), want=case['idt'])))
+    if case.get('fdt'):
+        if np.asarray(got).dtype != np.dtype(case['fdt']):
+            f.append(dict(kind='model', key='soft_threshold:float-dtype', detail=dict(got=str(np.asarray(got).dtype), want=case['fdt'])))
+        g = g.astype(np.float64)
     if g.shape != spec.shape or not np.array_equal(g, spec):
         bad = [int(i) for i in np.nonzero(g != spec)[0][:8]] if g.shape == spec.shape else []
         f.append(dict(kind='property', key=f'soft_threshold:{case["dt"]}',
@@ -268,7 +300,7 @@ def _eval_soft(case):
         f.append(dict(kind='property', key='soft_threshold:input-modified', detail={}))
     ab = np.abs(before.ravel())
     return dict(findings=f, nontrivial=bool((ab > t).any() and (ab <= t).any()), sig='s' + line,
-                tags=dict(kind='soft_threshold', dtype=case['dt'], gen=case.get('gen', 'corpus')))
+                tags=dict(kind='soft_threshold', dtype=case.get('fdt') or case.get('idt') or case['dt'], gen=case.get('gen', 'corpus')))
 
 
 def evaluate(cases):
@@ -306,10 +338,28 @@ def _rand_global(rng):
     ndim = rng.choice([1, 2, 2, 2, 3])
     shape = [rng.choice([1, 2, 3, 4, 7, 16]) for _ in range(ndim)]
     n = int(np.prod(shape))
-    style = rng.choice(['constant', 'two-level', 'sparse', 'tie', 'zero-dominated', 'dense', 'fullrange', 'few'])
+    style = rng.choice(['constant', 'two-level', 'sparse', 'tie', 'zero-dominated', 'dense', 'fullrange', 'few', 'zeros+one',
+                        'neartie-high'])
     if style == 'constant':
-        v = rng.choice([0, 1, 2, 7, 255, top])
+        v = rng.choice([0, 0, 1, 2, 7, 255, top, rng.randint(0, top)])
         data = [v] * n
+    elif style == 'zeros+one':
+        # zeros and ONE other level: a single counted level once zeros are ignored
+        v = rng.choice([1, 2, 255, top, rng.randint(1, top)])
+        data = [v if rng.random() < rng.choice([0.1, 0.5, 0.9]) else 0 for _ in range(n)]
+        if rng.random() < 0.5:
+            data[rng.randrange(n)] = v
+    elif style == 'neartie-high':
+        # nearly symmetric histograms far from level 0 with many pixels: the running means of the C loop lose the most
+        # accuracy here (cancellation in mu_O), and sigma has two nearly equal local maxima
+        base = rng.randint(top // 2, max(top // 2, top - 8))
+        m = rng.choice([50, 400, 2000])
+        a, b = rng.randint(1, 3), rng.randint(1, 3)
+        data = [base] * a + [base + 1] * m + [base + 2] * b
+        if rng.random() < 0.5:
+            data += [base + 3] * rng.randint(1, 2)
+        rng.shuffle(data)
+        shape = [len(data)]
     elif style == 'two-level':
         a, b = rng.randint(0, top), rng.randint(0, top)
         if rng.random() < 0.4:
@@ -368,7 +418,7 @@ def _rand_bernsen(rng):
     # twice the global threshold; 0 (a legitimate explicit threshold, falsy in Python) and the dtype maximum included
     g2 = rng.choice([0, 2 * top, 2 * rng.randint(0, top), 2 * rng.randint(0, top) + 1, 2 * data[rng.randrange(n)], 256])
     if len(shape) == 2 and rng.random() < 0.3:
-        return dict(kind='bernsen', dtype=dtype, shape=shape, data=data, radius=rng.choice([1, 2, 3]), ct=ct, g2=g2,
+        return dict(kind='bernsen', dtype=dtype, shape=shape, data=data, radius=rng.choice([1, 2, 2, 3, 3, 4]), ct=ct, g2=g2,
                     default_g=rng.random() < 0.3, gen='circle')
     bshape = [rng.choice([1, 2, 3, 3, 4]) for _ in shape]
     nb = int(np.prod(bshape))
@@ -391,15 +441,20 @@ def _rand_soft(rng):
         else:
             t = abs(rng.gauss(0, 2))
             vals = [rng.choice([rng.gauss(0, 3), t, -t, 0.0, t * (1 + 2 ** -52), -t * (1 - 2 ** -53), 1e300, -1e-300]) for _ in range(n)]
-        return dict(kind='soft', dt='f64', shape=shape, bits=[core.f2bits(v) for v in vals], tbits=core.f2bits(t), gen=style)
+        case = dict(kind='soft', dt='f64', shape=shape, bits=[core.f2bits(v) for v in vals], tbits=core.f2bits(t), gen=style)
+        if style == 'dyadic' and rng.random() < 0.5:
+            case['fdt'] = rng.choice(['float32', 'float16'])
+            case['gen'] = 'dyadic-' + case['fdt']
+        return case
     if rng.random() < 0.5:
-        # every integer dtype, unsigned and narrow ones included (values and threshold representable in the dtype)
-        idt = rng.choice(['uint8', 'uint16', 'uint32', 'uint64', 'int8', 'int16', 'int32'])
+        # every integer dtype, unsigned and narrow ones included (values and threshold representable in the dtype); the most
+        # negative value of the signed dtypes included (|f| is not representable there: np.abs wraps)
+        idt = rng.choice(['uint8', 'uint16', 'uint32', 'uint64', 'int8', 'int16', 'int32', 'int64'])
         lo_, hi_ = gen.dt_range(idt)
         t = rng.choice([0, 1, 2, 16, min(hi_, 100)])
         top = min(hi_, 10 ** 6)
         vals = [rng.choice([0, t, min(top, t + 1), rng.randint(max(lo_, -40), min(hi_, 40)), rng.randint(max(lo_, -top), top), hi_,
-                            max(lo_ + 1, -t), max(lo_ + 1, -t - 1)]) for _ in range(n)]
+                            lo_, max(lo_ + 1, -t), max(lo_ + 1, -t - 1)]) for _ in range(n)]
         return dict(kind='soft', dt='i64', idt=idt, shape=shape, data=vals, t=t, gen='int-' + idt)
     t = rng.choice([0, 1, 2, 16, 1000])
     vals = [rng.choice([0, t, -t, t + 1, -t - 1, rng.randint(-40, 40), rng.randint(-10**6, 10**6)]) for _ in range(n)]
